@@ -47,7 +47,7 @@ func checkC02(c *Ctx) {
 	R.Trivial("C02-children-monotone", "gldap never assigns Packet.Children directly", "-", "children are only appended (ber.AppendChild), so established minimum child counts stay valid")
 	// error propagation
 	c.checkErrorsPropagate("C02-errpath", append(fns, serve))
-	R.Floor("C02-errpath", 15)
+	R.Floor("C02-errpath", 5)
 	R.Assumptions = append(R.Assumptions,
 		"ber.ReadPacket never puts a nil *Packet into Children and never leaves Data nil",
 		"pointer-typed struct fields other than option fields (*int, *ber.Tag) and values the code itself sets to nil are non-nil by construction",
